@@ -92,75 +92,59 @@ Proof.
 Qed.
 Print Assumptions C27_drop_fault_unflagged.
 
-(* Reinstate.  Full statement: from any state with replication marked failed, no pending commit
-   logs and nothing left over outside the listed stores, ReinstateFailedDrives succeeds and
-   leaves the passive folder equal to the active one. *)
+(* Reinstate, full strength: from ANY state with replication marked failed - whatever the passive
+   folder holds for the listed stores (a wiped replacement drive, a stale copy, a half-written one)
+   and whatever store infos the L2 cache holds under the passive folder's key - with no pending
+   commit logs, nothing left over outside the listed stores (tidy_outside) and every listed store
+   having its info on the active side, ReinstateFailedDrives succeeds, switches replication back on,
+   leaves the active folder untouched and the passive folder pointwise equal to it (store list, every
+   store info, every registry entry). *)
 Definition tidy_outside (w : world) : Prop :=
   forall n, s_has (active w) n = false ->
     s_info (passive w) n = s_info (active w) n /\ forall l, s_reg (passive w) n l = s_reg (active w) n l.
-Definition C27_reinstate_full : Prop := forall w,
+Theorem C27_reinstate : forall w,
   w_failed w = true -> w_logs w = [] -> tidy_outside w ->
   (forall n, s_has (active w) n = true -> isSome (s_info (active w) n) = true) ->
-  snd (step w (OReinstate false)) = ROk /\ synced (fst (step w (OReinstate false))).
-
-(* False: CopyToPassiveFolders looks every store up with the folder toggler flipped, i.e. on the
-   passive side.  On a replaced (empty) drive the store is "not found" and skipped: neither its
-   store info nor its registry files are copied, yet replication is switched back on. *)
-Definition w_wiped : world := mkW side1 empty_side true true false [] (fun _ => None).
-Theorem C27_reinstate_refuted : ~ C27_reinstate_full.
-Proof.
-  intros H. destruct (H w_wiped eq_refl eq_refl) as [_ (_ & _ & _ & (_ & Ei & _))].
-  - intros n E. cbn in E. split; [cbn; rewrite E; reflexivity|]. intros l. cbn. rewrite E. reflexivity.
-  - intros n E. cbn in E. cbn. rewrite E. reflexivity.
-  - specialize (Ei 1). vm_compute in Ei. discriminate.
-Qed.
-Print Assumptions C27_reinstate_refuted.
-
-Theorem C27_reinstate_refuted_witness :
-  let w1 := fst (step w_wiped (OReinstate false)) in
-  snd (step w_wiped (OReinstate false)) = ROk /\ w_failed w1 = false /\ s_has (passive w1) 1 = true
-  /\ s_info (active w1) 1 = Some si1 /\ s_info (passive w1) 1 = None
-  /\ isSome (s_reg (active w1) 1 7) = true /\ s_reg (passive w1) 1 7 = None.
-Proof. vm_compute. repeat split. Qed.
-
-(* Second consequence of the same lookup: it goes through the L2 cache under the key
-   "<passive folder>:<store>", and the first reinstate leaves the info it saw there.  A later reinstate
-   within the cache TTL takes the cached (old) info and WRITES it over the passive storeinfo.txt - even
-   when the passive folder was a perfect copy (reproduced on the code; same finding). *)
-Definition si1_old : sinfo := mkSI 1 (-5) 7 50.
-Theorem C27_reinstate_cache_regression :
-  let w := mkW side1 side1 true true false [] (fun n => if n =? 1 then Some si1_old else None) in
-  side_eq (active w) (passive w) /\
-  let w1 := fst (step w (OReinstate false)) in
-  snd (step w (OReinstate false)) = ROk /\ w_failed w1 = false
-  /\ s_info (active w1) 1 = Some si1 /\ s_info (passive w1) 1 = Some si1_old.
-Proof. cbv zeta. split; [repeat split|vm_compute; repeat split]. Qed.
-Print Assumptions C27_reinstate_cache_regression.
-
-(* True when what the lookup sees (cache entry under the passive key, else the passive folder) is the
-   current store info of every listed store (exactly the pattern the refutations violate): then the registry files are copied wholesale
-   and the two folders are equal afterwards, and stay equal under further fault-free operations. *)
-Theorem C27_reinstate_partial : forall w,
-  w_failed w = true -> w_logs w = [] -> tidy_outside w ->
-  (forall n, s_has (active w) n = true ->
-     seen_info (w_pcache w) (passive w) n = s_info (active w) n /\ isSome (s_info (active w) n) = true) ->
   snd (step w (OReinstate false)) = ROk /\ synced (fst (step w (OReinstate false)))
   /\ active (fst (step w (OReinstate false))) = active w.
 Proof. intros w F G T H. apply reinstate_ok; auto. Qed.
-Print Assumptions C27_reinstate_partial.
+Print Assumptions C27_reinstate.
 
+(* the cache entries "<passive folder>:<store>" of the listed stores are evicted, whatever they held *)
+Theorem C27_reinstate_evicts_passive_cache : forall w n, w_failed w = true ->
+  s_has (active w) n = true -> w_pcache (fst (step w (OReinstate false))) n = None.
+Proof. exact reinstate_evicts. Qed.
+Print Assumptions C27_reinstate_evicts_passive_cache.
+
+(* ... and the folders stay equal under any further fault-free operations *)
 Corollary C27_reinstate_then_replica : forall w ops,
   w_failed w = true -> w_logs w = [] -> tidy_outside w ->
-  (forall n, s_has (active w) n = true ->
-     seen_info (w_pcache w) (passive w) n = s_info (active w) n /\ isSome (s_info (active w) n) = true) ->
+  (forall n, s_has (active w) n = true -> isSome (s_info (active w) n) = true) ->
   wf_run (fst (step w (OReinstate false))) ops ->
   synced (fst (run w (OReinstate false :: ops))).
 Proof.
-  intros w ops F G T H WF. destruct (C27_reinstate_partial w F G T H) as (_ & S & _).
+  intros w ops F G T H WF. destruct (C27_reinstate w F G T H) as (_ & S & _).
   cbn [run]. destruct (step w (OReinstate false)) as [w1 x]. cbn [fst] in *.
   destruct (C27_replica ops w1 S WF) as [S2 _]. destruct (run w1 ops) as [w2 xs]. exact S2.
 Qed.
 Print Assumptions C27_reinstate_then_replica.
+
+(* the former counterexamples, now instances: a wiped replacement drive, and a perfect copy with an
+   old store info cached under the passive folder's key (second reinstate within the cache TTL) *)
+Definition w_wiped : world := mkW side1 empty_side true true false [] (fun _ => None).
+Definition si1_old : sinfo := mkSI 1 (-5) 7 50.
+Definition w_cached : world := mkW side1 side1 true true false [] (fun n => if n =? 1 then Some si1_old else None).
+Example C27_reinstate_wiped_drive :
+  let w1 := fst (step w_wiped (OReinstate false)) in
+  snd (step w_wiped (OReinstate false)) = ROk /\ w_failed w1 = false
+  /\ s_info (passive w1) 1 = Some si1 /\ s_reg (passive w1) 1 7 = s_reg (active w1) 1 7
+  /\ isSome (s_reg (passive w1) 1 7) = true.
+Proof. vm_compute. repeat split. Qed.
+Example C27_reinstate_stale_cache_entry :
+  let w1 := fst (step w_cached (OReinstate false)) in
+  snd (step w_cached (OReinstate false)) = ROk /\ w_failed w1 = false
+  /\ s_info (passive w1) 1 = Some si1 /\ w_pcache w1 1 = None.
+Proof. vm_compute. repeat split. Qed.
 
 (* non-vacuity: a concrete well-formed history (create, first root, split with update+add, removal) *)
 Definition hroot := mkH 7 8 0 false 0%Z 0 false.
